@@ -21,6 +21,7 @@ type sessConn struct {
 	Cert    string    `json:"cert,omitempty"`
 	Traffic int       `json:"traffic,omitempty"` // stanzas pushed after a successful negotiation
 	NoDial  bool      `json:"nodial,omitempty"`  // nothing listens: the TCP connection is refused
+	Hold    bool      `json:"hold,omitempty"`    // after a </stream:stream> of the script the server keeps the connection open and waits for the client's closing tag (RFC 6120 4.4)
 	// C04, application sends from another goroutine (client.Send of a <message/> carrying a unique marker):
 	// SendDuring: NDuring sends made WHILE this connection attempt runs: "starttls" = as soon as the server holds the
 	// client's <starttls/> (the script withholds its answer), "certfail" = as soon as the server's TLS handshake has
@@ -274,6 +275,7 @@ func runSessionRaw(in sessIn) (*sessObs, Sx) {
 		if in.Patient {
 			sc.PeekMs = 4
 		}
+		sc.HoldAfterClose = c.Hold
 		if c.SendDuring == "certfail" {
 			sc.LingerMs = 3000
 		}
@@ -356,7 +358,7 @@ func runSessionRaw(in sessIn) (*sessObs, Sx) {
 		// somewhere); one that returned an error is given a moment in which it must not arrive.
 		locate := func() {
 			quiet := time.Now().Add(20 * time.Millisecond) // refused sends: nothing may show up meanwhile
-			giveUp := time.Now().Add(2 * time.Second)
+			giveUp := time.Now().Add(6 * time.Second)      // accepted sends: they must show up somewhere (generous: a loaded machine)
 			for {
 				logs := srv.snapshot()
 				missing := false
@@ -414,7 +416,7 @@ func runSessionRaw(in sessIn) (*sessObs, Sx) {
 		var cerr error
 		select {
 		case cerr = <-done:
-		case <-time.After(15 * time.Second):
+		case <-time.After(hungAfter(c)):
 			return ob, L(SBytes("connect-hung"), Zi(len(conns)))
 		}
 		if c.SendAfter > 0 && !c.NoDial {
@@ -550,6 +552,15 @@ func allErrNil(sends []sendObs) bool {
 		}
 	}
 	return true
+}
+
+// hungAfter: how long Connect may take before the scenario is declared hung. Against a server that holds the
+// connection open after closing the stream nothing else bounds the wait, so the verdict comes sooner there.
+func hungAfter(c sessConn) time.Duration {
+	if c.Hold {
+		return 6 * time.Second
+	}
+	return 15 * time.Second
 }
 
 func snapSx(s sessSnap) Sx {
